@@ -308,7 +308,7 @@ def solve_task(task):
             for tk, ttext in enumerate(tier_texts):
                 ts = time.time()
                 st, inf = _solve_z3(ttext, max(1000, ms // 10))
-                if st == "unknown":
+                if st == "unknown" and tk != opts.get("abs_tier"):
                     st, inf = _solve_split(ttext, max(2000, ms // 5))
                 log.append(("z3-tier%d" % tk, st, round(time.time() - ts, 3)))
                 if st == "proved":
@@ -391,8 +391,8 @@ def _ob_task(args):
                 # decides index case analyses and goals that hold by congruence; only `unsat` is used
                 ta, _ = to_smt2(ob, None, filtered=True, intabs=True)
                 if ta != text:
-                    opts["abs_tier"] = len(tt)
-                    tt.append(ta)
+                    opts["abs_tier"] = 0          # first: it answers in a fraction of a second when it answers at all
+                    tt.insert(0, ta)
             except Exception as e:
                 opts["abs_error"] = repr(e)[:200]
             opts["tier_texts"] = tt
